@@ -9,10 +9,18 @@ package gobeansdb
 import (
 	"net/http"
 
+	"github.com/douban/gobeansdb/cmem"
+	"github.com/douban/gobeansdb/memcache"
 	"github.com/douban/gobeansdb/store"
 )
 
+var _ = cmem.DBRL
+var _ = memcache.RL
+
 var _ = store.SpecGCStoreOK
+
+// helpers interpreted by govc
+func fresh(x interface{}) bool { return true }
 
 // the value of a form field (interpreted by govc: an uninterpreted function of request and name)
 func formValue(r *http.Request, name string) string { return r.FormValue(name) }
@@ -41,3 +49,34 @@ func lemmaGCRequest(r *http.Request, noGCDays int, pretend bool, merge bool) boo
 //@   requires r != nil && w != nil && storage != nil && storage.hstore != nil && store.SpecGCStoreOK(storage.hstore)
 //@   modifies *
 //@   ghost after GC#1: lemmaGCRequest(r, noGCDays, pretend, merge)
+
+// ---------- C12: the storage client hands a value buffer to the store ----------
+
+//@ func (s *StorageClient) prepare
+//@   props C12
+//@   ints bv
+//@   ensures fresh(result0) && result0.StringKey == key && result0.KeyIsPath == isPath && len(result0.Key) == len(key)
+
+// scope of this level: the store is in a state in which HStore.Set may be called for the key info
+// built from the key (bucket table set up, no-collision scope, version of the key in range)
+func lemmaStoreReadyFor(hs *store.HStore, ki *store.KeyInfo) bool { return true }
+
+//@ func lemmaStoreReadyFor
+//@   props C12
+//@   ints bv
+//@   assumed store-level preconditions of HStore.Set for the key info built from the request's key (scope: see verif_contracts_bucket.go)
+//@   requires ki != nil && !ki.KeyIsPath && len(ki.Key) <= 255
+//@   ensures result0 && store.SpecSetKiOK(hs, ki)
+
+// Set: the item's buffer (counted in SetData by the parser) leaves SetData on every path: released
+// here for an invalid key, handed to HStore.Set otherwise. HStore.Set takes a value buffer only with
+// a non-negative revision: a negative revision is a delete and carries no buffer (its precondition).
+//@ func (s *StorageClient) Set
+//@   props C12
+//@   ints bv
+//@   timeout 30
+//@   requires s != nil && s.hstore != nil && item != nil && len(item.Body) < 1<<31-400 && len(key) <= 255
+//@   requires item.Exptime > -2147483648 && item.Exptime < 2147483648
+//@   modifies *
+//@   ensures cmem.DBRL.SetData.Count == old(cmem.DBRL.SetData.Count)-1
+//@   ghost after Unix#1: lemmaStoreReadyFor(s.hstore, ki)
